@@ -118,10 +118,8 @@ def parseOp : List String → Option Op
   | ["deliver", x, i] => do pure (.deliver (← parseSide x) (← i.toNat?))
   | ["inject", x, ctl, seq, ack, wnd, len, seed] => do
     let sd ← parseSide x
-    let hdr : Hdr :=
-      { srcPort := sd.peer.port, dstPort := sd.port, seq := seqOf (← seq.toNat?), ack := seqOf (← ack.toNat?),
-        dataOffset := 5, ctl := Ctl.ofNat (← ctl.toNat?), wnd := u16Of (← wnd.toNat?), urg := 0, checksum := 0 }
-    pure (.inject sd ⟨hdr, genBytes (← len.toNat?) (← seed.toNat?)⟩)
+    pure (.inject sd (forge sd ((← ctl.toNat?) % 64) (← seq.toNat?) (← ack.toNat?) (← wnd.toNat?)
+      (genBytes (← len.toNat?) (← seed.toNat?))))
   | ["close", x] => do pure (.close (← parseSide x))
   | ["abort", x] => do pure (.abort (← parseSide x))
   | ["drop", x] => do pure (.drop (← parseSide x))
